@@ -36,7 +36,10 @@ Print Assumptions c18_consts_wf.
    advertised lists contain the served hash and the hash of whatever is served
    at any later sample of the current or following period, a freshly started
    manager serves what the running one serves, equal (start, end) means equal
-   certificate. *)
+   certificate, and (clause 9) every hash of an address given out by a manager
+   is in the list that same manager sends in the handshake at every later sample
+   of the current and the following period (so a dial with that address
+   completes: this is why lastConfig is kept). *)
 Theorem c18_manager_trace_holds : forall H p off t0 ops,
   wf p -> wfoff off -> pV p <= spec_max_validity ->
   (forall a b, H a (a + pV p) = H b (b + pV p) -> a = b) ->
@@ -223,17 +226,27 @@ Proof.
 Qed.
 Print Assumptions c18_server_cert_regression_detected.
 
+(* regenerated obligation: in dial(), for an address with certhashes, the
+   VerifyPeerCertificate callback that is installed is exactly
+   verifyRawCerts(rawCerts, certHashes) — whatever tls.Config the user supplied
+   through WithTLSClientConfig — and an address without certhashes is refused
+   (the source text is re-read on every run).  Model.dial relies on it. *)
+Theorem c18_dial_installs_verifier : dialInstallsVerifier = 1.
+Proof. vm_compute. reflexivity. Qed.
+Print Assumptions c18_dial_installs_verifier.
+
 (* sentence 2b: the dialer completes the connection only if the certificate
    check passed AND the server's early data decoded AND every hash of the
    dialed address is in it; and the dial monitor (server certificate pinned and
    within the rules, every address hash confirmed) accepts whatever the model
    answers, for every chain.  No hypothesis. *)
 Theorem c18_dialer_requires_confirmation : forall chain addr dec srv,
+  dialInstallsVerifier = 1 /\
   (dial cparams chain addr dec srv = 0 ->
    verify_raw_certs cparams chain addr = VOk /\ dec = true /\ forall h, In h addr -> In h srv) /\
   monitor_dial chain addr dec srv (dial cparams chain addr dec srv) = [].
 Proof.
-  intros chain addr dec srv. split.
+  intros chain addr dec srv. split; [exact c18_dial_installs_verifier|]. split.
   - apply dial_connected_inv.
   - destruct c18_consts_wf as (_ & _ & HM).
     apply monitor_dial_ok; [rewrite HM; lia | left; exact c18_verifier_inspects_first].
@@ -301,6 +314,18 @@ Definition other_on_restart (e : ev) : ev :=
   end.
 Example monitor_rejects_restart_with_other_cert :
   monitor_mgr (pS cparams) (map other_on_restart (model_events ex_H cparams (key_offset cparams 57 4) ex_t0 ex_ops)) <> [].
+Proof. vm_compute. discriminate. Qed.
+
+(* ... a manager that stops confirming the previous certificate's hash after a
+   rollover (an address learned one period ago then fails in upgrade()) *)
+Definition forget_last (e : ev) : ev :=
+  match e with
+  | EAdv d (mkSnap t l c n v ser addr) =>
+      EAdv d (mkSnap t l c n v (if (length ser =? 3)%nat then skipn 1 ser else ser) addr)
+  | x => x
+  end.
+Example monitor_rejects_unconfirmed_previous_hash :
+  monitor_mgr (pS cparams) (map forget_last (model_events ex_H cparams (key_offset cparams 57 4) ex_t0 ex_ops)) <> [].
 Proof. vm_compute. discriminate. Qed.
 
 (* the verifier monitor rejects an accepted expired / unpinned / too long /
